@@ -8,13 +8,22 @@
                sq_search / cosmos_search, sq_list / cosmos_list   Validate, the statement, the producer
                goroutine with its deferred close: the stream as the list of channel events
    Specification side (Spec.v), independent of the above:
-     spec_run be ops   the store as an association list id |-> (group, name, descr, submit, status)
+     spec_run be ops   the store as an association list id |-> (group, name, descr, submit, status, start, end)
+     stored_time Sqlite t := if 0 <? t then t else zero_time_ns   (the sqlite time codec, as Read decodes it:
+                             instants at or before the Unix epoch are the zero time; DESIGN section 11)
+     stored_time Cosmos t := t
+     representable t := t = zero_time_ns \/ -2^63 <= t < 2^63      (nanoseconds that fit Time.UnixNano's int64,
+                             or the zero time); op_representable o: the State.Start / State.End an op writes are
+                             representable. The sqlite theorems about result contents have this premise: the
+                             columns hold UnixNano() (wrap64 in the model), which wraps outside 1678..2262.
      created_not_deleted ops id := id <> 0 /\ exists pre r post, ops = pre ++ OCreate r :: post /\ r_id r = id
                                    /\ ~ In (ODelete id) post
      matches f id v := (f_ids f = [] \/ In id (f_ids f)) /\ (f_groups f = [] \/ In (pi_group v) (f_groups f))
                        /\ (f_statuses f = [] \/ In (pi_status v) (f_statuses f))
      newest_first xs := StronglySorted (fun a b => x_submit b <= x_submit a) xs
      take limit l    := if limit <=? 0 then l else firstn (Z.to_nat limit) l
+
+   A result (storage.ListResult) is id, group, name, descr, submit time, State.Status, State.Start, State.End.
 
    All theorems are for every history [ops] (any length, any plans), every filter, every limit. *)
 From Coq Require Import Permutation Sorted.
@@ -35,7 +44,7 @@ Print Assumptions c15_exists_exact.
 (* ---- Search: an invalid (empty) filter is rejected without a stream; otherwise the stream carries, newest
         submission first (ties in any order), exactly the stored plans matching all given filters, each once,
         with their stored projection, and is then closed; nothing else is ever sent. *)
-Theorem c15_search_exact_sqlite : forall ops f,
+Theorem c15_search_exact_sqlite : forall ops f, Forall op_representable ops ->
   (validate f = false -> sq_search f (sq_run ops) = None) /\
   (validate f = true -> exists xs,
       sq_search f (sq_run ops) = Some (map SItem xs ++ [SClose]) /\
@@ -56,7 +65,7 @@ Proof. exact c15_search_cosmos. Qed.
 Print Assumptions c15_search_exact_cosmos.
 
 (* ---- List: the first [limit] (all if limit <= 0) of all stored plans in a newest-first order; then closed *)
-Theorem c15_list_exact_sqlite : forall ops limit, exists xs all,
+Theorem c15_list_exact_sqlite : forall ops limit, Forall op_representable ops -> exists xs all,
   sq_list limit (sq_run ops) = map SItem xs ++ [SClose] /\
   Permutation all (map result_of (spec_run Sqlite ops)) /\ newest_first all /\ xs = take limit all.
 Proof. exact c15_list_sqlite. Qed.
@@ -69,7 +78,7 @@ Proof. exact c15_list_cosmos. Qed.
 Print Assumptions c15_list_exact_cosmos.
 
 (* ---- the property as one statement (DESIGN.md section 6, C15), sqlite back end *)
-Theorem c15_query_exact : forall ops,
+Theorem c15_query_exact : forall ops, Forall op_representable ops ->
   (forall id, sq_exists (sq_run ops) id = true <-> In id (dom (spec_run Sqlite ops))) /\
   (forall f, validate f = true -> exists xs,
       sq_search f (sq_run ops) = Some (map SItem xs ++ [SClose]) /\ newest_first xs /\
@@ -78,17 +87,17 @@ Theorem c15_query_exact : forall ops,
       sq_list limit (sq_run ops) = map SItem xs ++ [SClose] /\
       Permutation all (map result_of (spec_run Sqlite ops)) /\ newest_first all /\ xs = take limit all).
 Proof.
-  intros ops. split; [|split].
+  intros ops Hr. split; [|split].
   - intros id. exact (proj1 (c15_exists_sqlite ops id)).
-  - intros f Hv. destruct (proj2 (c15_search_sqlite ops f) Hv) as [xs [He [Hs [_ [_ Hp]]]]]. exists xs. auto.
-  - exact (c15_list_sqlite ops).
+  - intros f Hv. destruct (proj2 (c15_search_sqlite ops f Hr) Hv) as [xs [He [Hs [_ [_ Hp]]]]]. exists xs. auto.
+  - intros limit. exact (c15_list_sqlite ops limit Hr).
 Qed.
 Print Assumptions c15_query_exact.
 
 (* ---- what crash recovery relies on: every plan whose durable status is Running is returned by the
         status search for Running *)
 Corollary running_always_found :
-  (forall ops id v,
+  (forall ops id v, Forall op_representable ops ->
      get (spec_run Sqlite ops) id = Some v -> pi_status v = status_code Running ->
      exists xs, sq_search {| f_ids := []; f_groups := []; f_statuses := [status_code Running] |} (sq_run ops)
                 = Some (map SItem xs ++ [SClose]) /\ In id (map x_id xs)) /\
@@ -112,15 +121,24 @@ Print Assumptions c15_monitors_exact.
 
 (* ------------------------------------------------------------------ examples: nothing above is vacuous *)
 
-Definition ex_row (id g : N) (sub : Z) (st : N) : row :=
-  {| r_id := id; r_group := g; r_name := 1; r_descr := 2; r_submit := sub; r_status := st; r_swarm := 0 |}.
+Definition T (sec : Z) : Z := (sec * 1000000000)%Z.    (* nanoseconds *)
 
-(* five creates (one duplicate id, one uuid.Nil), updates, a delete, a re-creation *)
+Definition ex_row (id g : N) (sub : Z) (st : N) (start fin : Z) : row :=
+  {| r_id := id; r_group := g; r_name := 1; r_descr := 2; r_submit := sub; r_status := st;
+     r_start := start; r_end := fin; r_swarm := 0 |}.
+Definition Z0 := zero_time_ns.
+
+(* five creates (one duplicate id, one uuid.Nil), updates with distinct start / end, a delete, a re-creation;
+   unset times, a time before the epoch *)
 Definition ex_ops : list op :=
-  [ OCreate (ex_row 1 7 30 0); OCreate (ex_row 2 7 10 0); OCreate (ex_row 3 8 30 100);
-    OCreate (ex_row 2 9 99 400); OCreate (ex_row 0 9 99 400);
-    OUpdate 1 100 30; OUpdate 2 300 77; OCreate (ex_row 4 0 (-5) 100); ODelete 3; OUpdate 3 100 1;
-    OCreate (ex_row 5 8 30 200); ODelete 9; OCreate (ex_row 3 7 20 100) ].
+  [ OCreate (ex_row 1 7 30 0 Z0 Z0); OCreate (ex_row 2 7 10 0 Z0 Z0); OCreate (ex_row 3 8 30 100 (T 31) Z0);
+    OCreate (ex_row 2 9 99 400 (T 1) (T 2)); OCreate (ex_row 0 9 99 400 Z0 Z0);
+    OUpdate 1 100 30 (T 40) Z0; OUpdate 2 300 77 (T 41) (T 45); OCreate (ex_row 4 0 (-5) 100 (T (-3)) Z0); ODelete 3;
+    OUpdate 3 100 1 (T 50) Z0;
+    OCreate (ex_row 5 8 30 200 (T 32) (T 39)); ODelete 9; OCreate (ex_row 3 7 20 100 (T 60) Z0) ].
+
+Example ex_representable : Forall op_representable ex_ops.
+Proof. apply ops_representableb_sound. vm_compute. reflexivity. Qed.
 
 Example ex_exists : map (sq_exists (sq_run ex_ops)) [0; 1; 2; 3; 4; 5; 9]%N = [false; true; true; true; true; true; false].
 Proof. vm_compute. reflexivity. Qed.
@@ -134,14 +152,18 @@ Definition ex_filter : filters := {| f_ids := [1; 3; 4; 9]; f_groups := [7; 0]; 
 Example ex_filter_valid : validate ex_filter = true.
 Proof. reflexivity. Qed.
 
+(* ids with State.Start / State.End: plan 1 started at 40 s, not ended; plan 4's start before the epoch is the
+   zero time in sqlite and kept by cosmosdb *)
 Example ex_search :
-  option_map (fun tr => (map x_id (items_of tr), ends_closed tr)) (sq_search ex_filter (sq_run ex_ops))
-  = Some ([1; 3; 4]%N, true).
+  option_map (fun tr => (map (fun x => (x_id x, x_start x, x_end x)) (items_of tr), ends_closed tr))
+             (sq_search ex_filter (sq_run ex_ops))
+  = Some ([(1%N, T 40, Z0); (3%N, T 60, Z0); (4%N, Z0, Z0)], true).
 Proof. vm_compute. reflexivity. Qed.
 
 Example ex_search_cosmos :
-  option_map (fun tr => (map x_id (items_of tr), ends_closed tr)) (cosmos_search 1 ex_filter (cs_run 1 ex_ops))
-  = Some ([1; 3; 4]%N, true).
+  option_map (fun tr => (map (fun x => (x_id x, x_start x, x_end x)) (items_of tr), ends_closed tr))
+             (cosmos_search 1 ex_filter (cs_run 1 ex_ops))
+  = Some ([(1%N, T 40, Z0); (3%N, T 60, Z0); (4%N, T (-3), Z0)], true).
 Proof. vm_compute. reflexivity. Qed.
 
 Example ex_running :
@@ -160,35 +182,61 @@ Proof. vm_compute. reflexivity. Qed.
 
 Example ex_list_tie_either_way :
   let all := map result_of (spec_run Sqlite ex_ops) in
-  let pick ids := map (fun i => nth i (map result_of_row (sort_desc (sq_run ex_ops))) (result_of_row (ex_row 0 0 0 0))) ids in
+  let pick ids := map (fun i => nth i (map (sq_result_of_row) (sort_desc (sq_run ex_ops)))
+                                      (result_of_row (ex_row 0 0 0 0 0 0))) ids in
   (list_items_ok true 1 all (pick [0%nat]), list_items_ok true 1 all (pick [1%nat]), list_items_ok true 1 all (pick [2%nat]),
    list_items_ok true 2 all (pick [1%nat; 0%nat]), list_items_ok true 2 all (pick [0%nat; 2%nat]))
   = (true, true, false, true, false).
 Proof. vm_compute. reflexivity. Qed.
 
 (* the defects this property had (DESIGN section 7) are refuted by the monitors on concrete observations *)
+Definition ex_case (be : backend) (w : N) (ts : list step) : case := {| c_backend := be; c_swarm := w; c_steps := ts |}.
+
 Example ex_S1_exists_always_false_is_refuted :
-  check_case {| c_backend := Sqlite; c_swarm := 0; c_steps := [TOp (OCreate (ex_row 1 7 30 0)) true None; TExists 1 0] |} = [2; 1; 3]%nat.
+  check_case (ex_case Sqlite 0 [TOp (OCreate (ex_row 1 7 30 0 Z0 Z0)) true None; TExists 1 0]) = [2; 1; 3]%nat.
 Proof. vm_compute. reflexivity. Qed.
 
 Example ex_S2_anded_statuses_is_refuted :
-  check_case {| c_backend := Sqlite; c_swarm := 0; c_steps :=
-    [TOp (OCreate (ex_row 1 7 30 100)) true None;
+  check_case (ex_case Sqlite 0
+    [TOp (OCreate (ex_row 1 7 30 100 (T 31) Z0)) true None;
      TSearch true {| f_ids := []; f_groups := []; f_statuses := [100; 300]%N |}
-             {| o_class := 0; o_items := []; o_err := false; o_closed := true |}] |} = [2; 1; 4]%nat.
+             {| o_class := 0; o_items := []; o_err := false; o_closed := true |}]) = [2; 1; 4]%nat.
 Proof. vm_compute. reflexivity. Qed.
 
 Example ex_S3_never_closed_is_refuted :
-  check_case {| c_backend := Sqlite; c_swarm := 0; c_steps :=
-    [TOp (OCreate (ex_row 1 7 30 100)) true None;
-     TList true 0 {| o_class := 0; o_items := [result_of_row (ex_row 1 7 30 100)]; o_err := false; o_closed := false |}] |} = [2; 1; 5]%nat.
+  check_case (ex_case Sqlite 0
+    [TOp (OCreate (ex_row 1 7 30 100 (T 31) Z0)) true None;
+     TList true 0 {| o_class := 0; o_items := [result_of_row (ex_row 1 7 30 100 (T 31) Z0)]; o_err := false; o_closed := false |}])
+  = [2; 1; 5]%nat.
 Proof. vm_compute. reflexivity. Qed.
 
 Example ex_S7_search_item_without_swarm_is_refuted :
-  check_case {| c_backend := Cosmos; c_swarm := 1; c_steps :=
-    [TOp (OCreate (ex_row 1 7 30 0)) true (Some (set_swarm 1 (ex_row 1 7 30 0)));
-     TOp (OUpdate 1 100 30) true (Some (set_swarm 0 (ex_row 1 7 30 100)));
+  check_case (ex_case Cosmos 1
+    [TOp (OCreate (ex_row 1 7 30 0 Z0 Z0)) true (Some (set_swarm 1 (ex_row 1 7 30 0 Z0 Z0)));
+     TOp (OUpdate 1 100 30 (T 40) Z0) true (Some (set_swarm 0 (ex_row 1 7 30 100 (T 40) Z0)));
      TQuery {| f_ids := []; f_groups := []; f_statuses := [100]%N |}
             (fst (cs_build_search 0 {| f_ids := []; f_groups := []; f_statuses := [100]%N |}))
-            (snd (cs_build_search 0 {| f_ids := []; f_groups := []; f_statuses := [100]%N |}))] |} = [2; 1; 2; 2; 2; 7]%nat.
+            (snd (cs_build_search 0 {| f_ids := []; f_groups := []; f_statuses := [100]%N |}))]) = [2; 1; 2; 2; 2; 7]%nat.
 Proof. vm_compute. reflexivity. Qed.
+
+(* seeded change C15-d: the replaced search entry carries State.Start in State.End *)
+Example ex_wrong_state_end_in_search_item_is_refuted :
+  check_case (ex_case Cosmos 1
+    [TOp (OCreate (ex_row 1 7 30 0 Z0 Z0)) true (Some (set_swarm 1 (ex_row 1 7 30 0 Z0 Z0)));
+     TOp (OUpdate 1 200 30 (T 40) (T 45)) true (Some (set_swarm 1 (ex_row 1 7 30 200 (T 40) (T 40))))]) = [2; 1; 2]%nat.
+Proof. vm_compute. reflexivity. Qed.
+
+(* finding S8 (fixed): List / Search returned 1754-08-30T22:43:41.128654848Z, the wrapped UnixNano of the zero
+   time, as the Start / End of a plan that has none *)
+Definition ex_S8_obs (start : Z) : case :=
+  ex_case Sqlite 0
+    [TOp (OCreate (ex_row 1 7 30 0 Z0 Z0)) true None;
+     TList true 0 {| o_class := 0; o_err := false; o_closed := true;
+                     o_items := [{| x_id := 1; x_group := 7; x_name := 1; x_descr := 2; x_submit := 30; x_status := 0;
+                                    x_start := start; x_end := start |}] |}].
+
+Example ex_S8_1754_for_an_unset_time_is_refuted :
+  wrap64 zero_time_ns = (-6795364578871345152)%Z /\
+  check_case (ex_S8_obs (-6795364578871345152)) = [2; 1; 5]%nat /\
+  check_case (ex_S8_obs Z0) = [0]%nat.
+Proof. vm_compute. repeat split; reflexivity. Qed.
